@@ -2,7 +2,7 @@
    well-formed model: any number of parameters, any order of first use, any registration history after the
    declaration-order pre-registration. *)
 From Coq Require Import ZArith List Bool String QArith Qcanon Lia Sorted.
-From PV Require Import PyLib AutoEquiv Auto.
+From PV Require Import PyLib Auto AutoImpl AutoEquiv.
 From PVG Require Import Gen_auto_param_indices.
 Import ListNotations.
 Open Scope Z_scope.
@@ -212,7 +212,7 @@ Section Pipeline.
   (* Impl = Spec *)
   Theorem emit_refines : emit m = spec_emit vars m.
   Proof.
-    unfold emit, spec_emit. fold ret args decl ps. rewrite head_args_eq. cbn [skipn]. rewrite auto_order_eq.
+    unfold emit, emit_with, spec_emit. fold ret args decl ps. rewrite head_args_eq. cbn [skipn]. rewrite auto_order_eq.
     rewrite gen_equiv. rewrite <- (map_slot_of ps ps_NoDup).
     rewrite firstn_all2 by (rewrite map_length; lia).
     rewrite combine_map_self. rewrite !map_map. cbn [fst snd].
